@@ -66,6 +66,22 @@ def discover(prop, tier, only=None):
 def find_item(src, spec):
     """returns (start, body_open, body_close) for the item spec"""
     spec = spec.strip()
+    # nested block:  "<fn spec> :: block <keyword> [#n]"  -> the `{...}` that follows the n-th `<keyword>` token in the fn
+    mo = re.match(r'(.*?)\s*::\s*block\s+(\w+)(?:\s*#(\d+))?$', spec)
+    if mo:
+        s0, o0, c0 = find_item(src, mo.group(1))
+        nth = int(mo.group(3) or 0)
+        k = 0
+        for km in src.find_code(r'\b%s\b' % re.escape(mo.group(2)), o0, c0):
+            j = km.end()
+            while src.text[j].isspace():
+                j += 1
+            if src.text[j] != '{':
+                continue
+            if k == nth:
+                return km.start(), j, src.match_close(j)
+            k += 1
+        raise rustx.ExtractError('block %s #%d not found in %s' % (mo.group(2), nth, mo.group(1)))
     mo = re.match(r'impl\s+(.*?)\s*::\s*fn\s+(\w+)$', spec)
     if mo:
         parts = src.impl_parts(r'impl\b[^{;]*?' + mo.group(1))
